@@ -87,6 +87,7 @@ func main() {
 		{Name: "hard-multi-denom-liquidation", Cfg: cfg, Script: history.ScenarioHardMultiDenom(), Blocks: 20, MaxTxs: 5, PriceEvery: 5},
 		{Name: "gov-tally-bkava", Cfg: cfg, Script: history.ScenarioGovTallyBkava(cfg.GovVotingPeriod), Blocks: 15, MaxTxs: 5, PriceEvery: 5},
 		{Name: "committee-param-change", Cfg: cfg, Script: history.ScenarioCommitteeParamChange(), Blocks: 15, MaxTxs: 5, PriceEvery: 5},
+		{Name: "bkava-validator-emptied", Cfg: cfg, Script: history.ScenarioBkavaValidatorEmptied()},
 	}
 	nRandom := c.Budget(14, 40)
 	blocks := 150
